@@ -502,3 +502,90 @@ package gts
 //@      out.(Ranged).Partial.Partial5 == locs[0].(Ranged).Partial.Partial5 && out.(Ranged).Partial.Partial3 == locs[1].(Ranged).Partial.Partial3
 //@   assigns nothing
 //@   loop 1: unroll 2
+
+// ---------------------------------------------------------------------------
+// sequence.go: sequences through their accessors (C02 C03 C04 C05 C10 C11)
+//
+// A Sequence is observed only through Info/Features/Bytes.  bytesOf/featsOf/infoOf are the
+// abstract observers; for a BasicSequence they are its fields (contract of New), for other
+// implementations the interface contracts below are assumed.
+
+//@ spec func bytesOf(s Sequence) []byte uninterpreted
+//@ spec func featsOf(s Sequence) FeatureSlice uninterpreted
+//@ spec func infoOf(s Sequence) any uninterpreted
+
+//@ func (s Sequence) Bytes() (p []byte)
+//@   trusted interface contract: accessors are pure and deterministic (holds for BasicSequence by the contract of New; GenBank.Bytes switches the Origin representation without changing the residues, see C16)
+//@   ensures sameslice(p, bytesOf(s))
+//@   assigns nothing
+//@ func (s Sequence) Features() (ff FeatureSlice)
+//@   trusted interface contract: accessors are pure and deterministic
+//@   ensures sameslice(ff, featsOf(s))
+//@   assigns nothing
+//@ func (s Sequence) Info() (info any)
+//@   trusted interface contract: accessors are pure and deterministic
+//@   ensures info == infoOf(s)
+//@   assigns nothing
+
+//@ func New(info any, table FeatureSlice, p []byte) (out BasicSequence)
+//@   prop C11
+//@   ensures sameslice(out.data, p) && sameslice(out.table, table) && out.info == info
+//@   define sameslice(bytesOf(out), p) && sameslice(featsOf(out), table) && infoOf(out) == info
+//@   assigns nothing
+
+//@ func (seq BasicSequence) Bytes() (p []byte)
+//@   prop C11
+//@   ensures sameslice(p, seq.data)
+//@   assigns nothing
+//@ func (seq BasicSequence) Features() (ff FeatureSlice)
+//@   prop C11
+//@   ensures sameslice(ff, seq.table)
+//@   assigns nothing
+//@ func (seq BasicSequence) Info() (info any)
+//@   prop C11
+//@   ensures info == seq.info
+//@   assigns nothing
+
+//@ func (v hasWithBytes) WithBytes(p []byte) (out Sequence)
+//@   trusted interface contract assumed for implementations outside package gts (GenBank, Fasta)
+//@   ensures sameslice(bytesOf(out), p) && sameslice(featsOf(out), featsOf(v)) && infoOf(out) == infoOf(v)
+//@   assigns nothing
+//@ func (v hasWithFeatures) WithFeatures(ff []Feature) (out Sequence)
+//@   trusted interface contract assumed for implementations outside package gts (GenBank, Fasta)
+//@   ensures sameslice(bytesOf(out), bytesOf(v)) && sameslice(featsOf(out), ff) && infoOf(out) == infoOf(v)
+//@   assigns nothing
+//@ func (v hasWithInfo) WithInfo(info any) (out Sequence)
+//@   trusted interface contract assumed for implementations outside package gts (GenBank, Fasta)
+//@   ensures sameslice(bytesOf(out), bytesOf(v)) && sameslice(featsOf(out), featsOf(v)) && infoOf(out) == info
+//@   assigns nothing
+
+//@ func WithBytes(seq Sequence, p []byte) (out Sequence)
+//@   prop C11 C02 C03
+//@   requires !isnil(seq)
+//@   ensures sameslice(bytesOf(out), p) && sameslice(featsOf(out), featsOf(seq)) && infoOf(out) == infoOf(seq)
+//@   assigns nothing
+//@ func WithFeatures(seq Sequence, ff []Feature) (out Sequence)
+//@   prop C11 C02 C03
+//@   requires !isnil(seq)
+//@   ensures sameslice(bytesOf(out), bytesOf(seq)) && sameslice(featsOf(out), ff) && infoOf(out) == infoOf(seq)
+//@   assigns nothing
+//@ func WithInfo(seq Sequence, info any) (out Sequence)
+//@   prop C11 C02 C03
+//@   requires !isnil(seq)
+//@   ensures sameslice(bytesOf(out), bytesOf(seq)) && sameslice(featsOf(out), featsOf(seq)) && infoOf(out) == info
+//@   assigns nothing
+
+//@ func Len(seq Sequence) (n int)
+//@   trusted an implementation's own Len() is assumed to agree with len(Bytes()) (BasicSequence has none; GenBank.Len: lemmaOriginRoundTrip in seqio)
+//@   requires !isnil(seq)
+//@   ensures n == len(bytesOf(seq))
+//@   assigns nothing
+
+//@ func insert(p []byte, pos int, q []byte) (out []byte)
+//@   prop C02 C11
+//@   requires 0 <= pos && pos <= len(p)
+//@   ensures len(out) == len(p) + len(q) && fresh(out)
+//@   ensures head: forall k in 0..pos: out[k] == old(p[k])
+//@   ensures guest: forall k in 0..len(q): out[pos+k] == old(q[k])
+//@   ensures tail: forall k in pos..len(p): out[len(q)+k] == old(p[k])
+//@   assigns nothing
